@@ -17,7 +17,7 @@ RULE = ("for model configuration classes (tags per predicate class x rated power
 ASSUMPTIONS = ["equality is NaN-aware; where the bulk read reports None the single read may return None or raise ValueError",
                "ids listed twice in a table (ET meter_e_total_exp/imp: float and 8-byte variants) resolve to the later definition in "
                "both paths"]
-MUST = ["history_concurrent_reads", "firmware_version_variants", "history_slow_first_answer", "impossible_clock_contents", "ids_compared", "calculated_ids_compared", "bitmap_ids_compared", "four_byte_meter_ids_compared", "none_in_bulk",
+MUST = ["answers_padded_with_stray_bytes", "history_concurrent_reads", "firmware_version_variants", "history_slow_first_answer", "impossible_clock_contents", "ids_compared", "calculated_ids_compared", "bitmap_ids_compared", "four_byte_meter_ids_compared", "none_in_bulk",
         "history_battery_appears", "history_block_refused_later", "history_device_info_rerun", "history_block_served_later",
         "history_battery_disappears", "configs_run"]
 EXHAUSTIVE = {"quick": False, "thorough": False}
@@ -86,6 +86,11 @@ def run_cfg(cfg, part, port, seed, history=None):
         sim.set_bytes(35100 if fam == "ET" else 30100, clock)
         part.count("impossible_clock_contents")
         style += " clock=" + clock.hex()
+    if port == 8899 and fam in ("ET", "DT") and rnd.random() < 0.25:
+        # firmware that appends a few stray bytes to every read answer (tolerated by the validators on purpose): single and bulk reads agree all the same
+        sim.stray = rnd.choice((b"\x00", b"\xab\xcd", b"\xff\xff\xff", b"\x00\x00\x00\x00\x00"))
+        style += " stray=" + sim.stray.hex()
+        part.count("answers_padded_with_stray_bytes")
     tag = f"{fam} {cfg['tag']} rated={cfg['rated']} refused={cfg['refused']} battery={cfg['battery']} fw={cfg.get('fw_versions')} port={port} {style}"
     case = {"config": cfg, "port": port, "seed": seed, "history": history}
 
@@ -184,7 +189,10 @@ def run_cfg(cfg, part, port, seed, history=None):
             listed = [x.id_ for x in inv.sensors()]
             pick = [x for x in listed if x.startswith(("battery", "meter", "pmppt", "vpv"))]
             rnd.shuffle(pick)
-            pick = pick[:14]
+            # (calculated values and bitmap labels first: their single read runs a whole poll of its own while the others queue behind it)
+            calc_ = [x.id_ for x in inv.sensors() if type(x).__name__ in ("Calculated", "EnumCalculated", "EnumBitmap4", "EnumBitmap22")]
+            rnd.shuffle(calc_)
+            pick = calc_[:3] + pick[:14]
             got_ = {}
 
             async def single(sid, off):
@@ -263,6 +271,9 @@ def run_shard(spec):
         if hist == "slow_first_answer":
             port = 8899
         run_cfg(cfg, part, port, f"{spec['seed']}:C16:{i}", hist)
+        if cfg["family"] == "DT" and hist != "concurrent_reads":
+            # (the DT configurations are few: each of them also gets the overlapping-calls history)
+            run_cfg(cfg, part, port, f"{spec['seed']}:C16:{i}:c", "concurrent_reads")
     return part
 
 
